@@ -408,12 +408,21 @@ def small_history():
 
 @st.composite
 def parallel_history(draw):
-    case = draw(history(max_settings=16))
+    big = draw(st.sampled_from([False, False, True]))
+    case = draw(history(max_settings=40 if big else 16))
     N = n_settings(case)
     # batches with several settings each, so that a pool has work to reorder
     case["batch"] = draw(st.sampled_from(
         [["batchsize", 3], ["batchsize", 2], ["batchsize", 4],
          ["num_batches", 2], ["batchsize", 5], ["num_batches", 3]]))
+    if big:
+        # batches of 16 and more settings for two workers
+        case["batch"] = draw(st.sampled_from(
+            [["batchsize", 17], ["batchsize", 24], ["num_batches", 1],
+             ["num_batches", 2], ["batchsize", 40]]))
+        if case["input"] == "grid" and N < 18:
+            case["args"] = [["a", list(range(5))],
+                            ["b", [0.5, 1.5, 2.5, 3.5, 4.5, 5.5, 6.5]]]
     for s in case["plan"]:
         s["parallel"] = True
     if case["input"] == "grid" and draw(st.sampled_from([False, False,
